@@ -83,13 +83,14 @@ type Ctx struct {
 	unfoldDepth int
 	fuel        int
 	genN        int
+	used        map[*Block]bool // contracts applied at call sites / ghost functions used
 	specDepth   int
 	pending     []pendingFact
 	quantVars   []string
 }
 
 func newCtx(eng *Engine, unit string) *Ctx {
-	c := &Ctx{eng: eng, unit: unit, declared: map[string]bool{}, shapes: map[string]*PtrShape{}, strConsts: map[string]Term{}, heap0: map[string]Term{}, assumed: map[string]bool{}, abstracted: map[string]bool{}, ufDefs: map[string]bool{}, unfolded: map[string]bool{}, typeIDs: map[string]int{}, oblCount: map[string]int{}, globals: map[string]Term{}}
+	c := &Ctx{eng: eng, unit: unit, declared: map[string]bool{}, shapes: map[string]*PtrShape{}, strConsts: map[string]Term{}, heap0: map[string]Term{}, assumed: map[string]bool{}, abstracted: map[string]bool{}, ufDefs: map[string]bool{}, unfolded: map[string]bool{}, typeIDs: map[string]int{}, oblCount: map[string]int{}, globals: map[string]Term{}, used: map[*Block]bool{}}
 	c.fuel = 1
 	c.emit("(declare-sort Str 0)")
 	c.emit("(declare-fun slen (Str) Int)")
